@@ -440,7 +440,13 @@ func C17_introspect() {
 	}
 	sym.Budget(60_000_000)
 	sym.Assert(root.ParseString(src) == nil, "model schema accepted")
+	sdlBefore := root.SDL(true, true)
+	if sym.Choice("other request first", 2) == 1 {
+		// an earlier introspection request with the other setting must not matter
+		_ = root.ResolveString(c17Query(!include), "", nil)
+	}
 	res := root.ResolveString(c17Query(include), "", nil)
+	sym.Assert(root.SDL(true, true) == sdlBefore, "introspection leaves the schema as it is")
 	sym.Assert(res["errors"] == nil, "introspection request resolves without error")
 	data, _ := res["data"].(map[string]interface{})
 	sym.Assert(data != nil, "data present")
